@@ -42,6 +42,8 @@ def src_t(s):
         return "SEmpty"
     if k == "chan":
         return "(SChan %s)" % zlist(s["l"])
+    if k == "error":
+        return "(SError %s)" % z(s["e"])
     evs = []
     for e in s["evs"]:
         evs.append("EvPanic" if e[0] == "panic" else {"item": "EvItem", "transient": "EvTransient", "fatal": "EvFatal"}[e[0]] + " " + z(e[1]))
@@ -153,7 +155,7 @@ def src_items(s):
         return list(range(max(0, s["n"])))
     if k == "repeat":
         return [s["x"]] * max(0, s["n"])
-    if k == "empty":
+    if k in ("empty", "error"):
         return []
     return [e[1] for e in s["evs"] if e[0] == "item"]
 
@@ -228,10 +230,38 @@ def has_faults(p):
     def f(n):
         if n["t"] == "src" and n["src"]["k"] in ("script", "scriptnc") and any(e[0] != "item" for e in n["src"]["evs"]):
             bad[0] = True
+        if n["t"] == "src" and n["src"]["k"] == "error":
+            bad[0] = True          # stream.Error: an unretryable fault and nothing else
         if "fl" in n and n["fl"][0] is not None:
             bad[0] = True
     walk(p, f)
     return bad[0]
+
+
+def error_answer(p, live_only):
+    """What EVERY Next of the pipeline must answer when that is determined by stream.Error sources alone, from the
+    documentation of the combinators (independent of the Coq model):  ["err", e] - the error of the stream.Error
+    that the call reaches first -, ["end"], or None when items are involved (not decided here).
+    stream.Error never yields and never ends, so no callback is ever invoked and the answer is the same for every
+    call: first or later, live or expired context (errorStream.Next does not look at it), before or after Close.
+    Flatten asks its outer stream (a FromIterator, which answers an expired context itself) before it has an inner
+    stream: decided only for programs whose calls all have live contexts (live_only)."""
+    t = p["t"]
+    if t == "src":
+        return ["err", p["src"]["e"]] if p["src"]["k"] == "error" else None
+    if t == "first":
+        return ["end"] if p["n"] <= 0 else error_answer(p["p"], live_only)
+    if t in ("join", "flatten"):
+        if t == "flatten" and not live_only:
+            return None
+        for q in p["ps"]:
+            a = error_answer(q, live_only)
+            if a != ["end"]:
+                return a           # the first stream that does not end at once decides (None: items)
+        return ["end"]
+    # Peek, Compact, Filter, Map, While, FlattenSlices, Chunk, Runs: nothing to work with - the error (or the end) of
+    # the inner stream is the answer
+    return error_answer(p["p"], live_only)
 
 
 def has_panics(case):
@@ -312,11 +342,14 @@ class PipeGen:
         r = self.rng
         kinds = ["slice", "slice", "slice", "counter", "repeat", "empty", "chan"]
         if self.kind == "stream":
-            kinds += ["script", "script", "script"]
+            kinds += ["script", "script", "script", "error"]
             if self.faults:
                 # no chan with expired contexts; scriptnc = a source that never looks at its context
-                kinds = ["script", "script", "script", "scriptnc", "scriptnc", "slice", "counter"]
+                kinds = ["script", "script", "script", "scriptnc", "scriptnc", "slice", "counter", "error"]
         k = r.choice(kinds)
+        if k == "error":           # stream.Error(err)
+            self.err += 1
+            return {"k": k, "e": self.err}
         if k == "slice" or k == "chan":
             return {"k": k, "l": self.vals()}
         if k == "counter":
@@ -463,6 +496,71 @@ def gen_case(rng, kind, faults, panics=False):
     return {"component": "pipes", "cfg": cfg, "ops": []}
 
 
+def error_source_cases(rng):
+    """stream.Error(E) by itself and as the source of every combinator and every reducer: Next with live and expired
+    contexts, repeated, Close, Next after Close (the instrumented wrapper logs the calls that reach the stream)."""
+    code = [40]
+
+    def E(i=0):
+        code[0] += 1
+        return {"t": "src", "id": i, "src": {"k": "error", "e": code[0]}}
+
+    def sl(i, l):
+        return {"t": "src", "id": i, "src": {"k": "slice", "l": l}}
+    nf = [None, 0, False]
+    fails_first = [0, 99, False]          # a callback that would fail at its first invocation: it is never invoked
+    shapes = [
+        lambda: E(),
+        lambda: {"t": "peek", "p": E()},
+        lambda: {"t": "compact", "r": ["eq"], "p": E()},
+        lambda: {"t": "compact", "r": ["div", 2], "p": E()},
+        lambda: {"t": "filter", "f": ["true"], "fl": nf, "p": E()},
+        lambda: {"t": "filter", "f": ["lt", 3], "fl": fails_first, "p": E()},
+        lambda: {"t": "first", "n": 1, "p": E()},
+        lambda: {"t": "first", "n": 5, "p": E()},
+        lambda: {"t": "first", "n": 0, "p": E()},
+        lambda: {"t": "join", "ps": [E()]},
+        lambda: {"t": "join", "ps": [E(), sl(1, [1, 2])]},
+        lambda: {"t": "join", "ps": [sl(0, []), E(1), E(2)]},
+        lambda: {"t": "join", "ps": [sl(0, [4]), E(1)]},
+        lambda: {"t": "flatten", "ps": [E(), sl(1, [1, 2])]},
+        lambda: {"t": "flatten", "ps": [sl(0, []), E(1)]},
+        lambda: {"t": "map", "f": [2, 1], "fl": nf, "p": E()},
+        lambda: {"t": "map", "f": [1, 0], "fl": fails_first, "p": E()},
+        lambda: {"t": "while", "f": ["true"], "fl": nf, "p": E()},
+        lambda: {"t": "while", "f": ["lt", 0], "fl": nf, "p": E()},
+        lambda: {"t": "flattenslices", "p": {"t": "chunk", "n": 2, "p": E()}},
+        lambda: {"t": "flattenslices", "p": {"t": "runs", "r": ["eq"], "take": None, "p": E()}},
+        lambda: {"t": "chunk", "n": 1, "p": E()},
+        lambda: {"t": "chunk", "n": 3, "p": E()},
+        lambda: {"t": "runs", "r": ["eq"], "take": None, "p": E()},
+        lambda: {"t": "runs", "r": ["div", 2], "take": 1, "p": E()},
+        # nestings
+        lambda: {"t": "map", "f": [1, 1], "fl": nf, "p": {"t": "filter", "f": ["true"], "fl": nf, "p": {"t": "peek", "p": E()}}},
+        lambda: {"t": "first", "n": 2, "p": {"t": "flattenslices", "p": {"t": "chunk", "n": 2, "p": {"t": "compact", "r": ["eq"], "p": E()}}}},
+        lambda: {"t": "join", "ps": [{"t": "first", "n": 0, "p": E()}, {"t": "while", "f": ["true"], "fl": nf, "p": E(1)}]},
+    ]
+    programs = [
+        {"steps": [["next", True], ["next", False], ["next", True], ["close"], ["next", True], ["next", False]]},
+        {"steps": [["next", False], ["next", False], ["close"], ["close"]]},
+        {"steps": [["next", True], ["next", True], ["next", True], ["close"]]},
+        {"steps": [["close"], ["next", True]]},
+        {"steps": [["close"]]},
+    ] + [{"reduce": red, "live": live} for red in (["collect"], ["last", 0], ["last", 2], ["one"], ["sum", [None, 0, False]], ["sum", [0, 98, False]])
+         for live in (True, False)]
+    cases = []
+    for mk in shapes:
+        for prog in programs:
+            pipe = mk()
+            if "reduce" in prog and is_list_pipe(pipe):
+                continue
+            cfg = {"kind": "stream", "pipe": pipe, "prog": copy.deepcopy(prog), "error_source_case": True}
+            if rng.random() < 0.3:
+                cfg["valsrc"] = True
+            cases.append({"component": "pipes", "cfg": cfg, "ops": []})
+    return cases
+
+
 def erase_faults(case):
     """C08: the same pipeline and program without transient faults and without expired-context steps."""
     c = copy.deepcopy(case)
@@ -501,6 +599,8 @@ class PipeSpec(SeqSpec):
                 t = erase_faults(c)
                 t["twin_of_previous"] = True
                 cases.append(t)
+        if self.kind == "stream" and not self.panics:
+            cases += error_source_cases(rng)
         return cases
 
     def post_run(self, cases, obs_by_id):
@@ -531,6 +631,34 @@ class PipeSpec(SeqSpec):
             fails.append(("argument-slice-modified", "a slice passed as the variadic argument of Join was modified by the library (an element replaced)"))
         if any(r[0] in ("bad",) for r in results):
             fails.append(("bad-observation", "the harness could not observe a result: %r" % results))
+        # ---- C08: an error that reaches the consumer is the injected error VALUE, not a copy or a wrapper of it
+        if obs.get("aux", {}).get("errors_not_intact"):
+            fails.append(("error-not-intact", "scripted errors %r reached the consumer wrapped or re-created, not as the value the source/callback returned"
+                          % (obs["aux"]["errors_not_intact"],)))
+        # ---- C07/C08: stream.Error(E) - by itself and under every combinator / reducer - reports E, at every call
+        if self.kind == "stream" and not has_panics(case):
+            nexts = [s for s in prog.get("steps", []) if s[0] == "next"]
+            live_only = all(s[1] for s in nexts) if "steps" in prog else bool(prog.get("live", True))
+            ans = error_answer(pipe, live_only)
+            if ans is not None and "steps" in prog:
+                for i, (st, r) in enumerate(zip(prog["steps"], results)):
+                    want = ["unit"] if st[0] == "close" else ans
+                    if r != want:
+                        sig = "error-source:" + ("constructor" if pipe["t"] == "src" else pipe["t"])
+                        fails.append((sig, "step %d (%r) answered %r; over stream.Error every Next must answer %r (whatever the context, before and after Close)"
+                                      % (i, st, r, want)))
+                        break
+                if len(results) != len(prog["steps"]):
+                    fails.append(("error-source:run-stopped", "the run has %d results for %d steps" % (len(results), len(prog["steps"]))))
+            elif ans is not None:
+                red = prog["reduce"]
+                r = results[0] if results else ["bad"]
+                if ans[0] == "err":
+                    want = ans
+                else:
+                    want = {"collect": ["val", []], "last": ["val", []], "sum": ["val", [0]], "one": ["err", -2]}[red[0]]
+                if r != want:
+                    fails.append(("error-source:reducer:" + red[0], "%r over a pipeline that answers %r returned %r, must return %r" % (red, ans, r, want)))
         # ---- C07: documented sequence / reducers / sticky end (failure-free, documented parameter domain)
         panicky = has_panics(case)
         if domain and not faulty and not expired and not panicky:
@@ -595,7 +723,11 @@ class PipeSpec(SeqSpec):
                         if st is not None and st[0] == "next" and st[1] is True:
                             fails.append(("spurious-context-error", "step %d: a Next with a live context returned the context error" % i))
         # ---- C09 (streams): every owned source closed exactly once, no use after close
-        if self.kind == "stream":      # (also when a call panicked and the caller recovered: reducers close by defer)
+        # a consumer program that itself calls Next after Close (some of the stream.Error cases do, to see that Close
+        # changes nothing there) has left the ownership protocol: nothing is claimed about closes for it
+        kinds_ = [s[0] for s in prog.get("steps", [])]
+        next_after_close = "close" in kinds_ and "next" in kinds_[kinds_.index("close"):]
+        if self.kind == "stream" and not next_after_close:      # (also when a call panicked and the caller recovered: reducers close by defer)
             closes = {}
             closed = set()
             for e in log:
